@@ -1,6 +1,6 @@
 """C17 samplers / resampling / affine algebra -- path enumeration over the instantiated AST with a polynomial
 normaliser (weights) and an integer difference-bound prover (in-bounds reads)."""
-import os
+import os, re
 from . import common as C
 from .ast import rules as R
 from .ir.poly import Poly
@@ -42,13 +42,15 @@ def run(rep):
     open(src, "w").write(DRIVER)
     d = C.astdump(src, os.path.join(wd, "c17.json"),
                   ["^boost::gil::sample$", "^boost::gil::resample_pixels$", "^boost::gil::resample_subimage$", "^boost::gil::resize_view$",
-                   "^boost::gil::operator\\*$", "^boost::gil::inverse$", "^boost::gil::transform$", "^boost::gil::matrix3x2::get_(rotate|translate|scale)$"])
+                   "^boost::gil::operator\\*$", "^boost::gil::inverse$", "^boost::gil::transform$", "^boost::gil::matrix3x2::get_(rotate|translate|scale)$",
+                   "^boost::gil::cast_channel_fn::", "^boost::gil::cast_pixel$"])
     fns = d["functions"]
     rep.units.append("c17_driver.cpp: %d instantiated functions" % len(fns))
     rep.trusted += ["clang front end (instantiated AST)", "harness/ast/rules.py (guards, polynomial normaliser, difference-bound prover)",
                     "ifloor(p) <= p < ifloor(p)+1 so frac lies in [0,1) (utilities.hpp, not analysed)"]
     rep.assumptions += ["the source view is non-empty (width >= 1, height >= 1)"]
     bilinear(rep, fns)
+    narrowing(rep, fns)
     nearest(rep, fns)
     resample(rep, fns)
     affine(rep, fns)
@@ -57,6 +59,73 @@ def run(rep):
 
 
 # ------------------------------------------------------------------------------------------------
+def narrowing(rep, fns):
+    """B4: the weighted sum is accumulated in floating point; the weights (products of f and 1-f) add up to 1 only up to rounding,
+    so the conversion to an integral destination channel must round to nearest: truncation can end one below the smallest
+    contributing value, which is not a convex combination (a constant image is not reproduced)."""
+    rep.rule("B4 bilinear: the floating-point accumulator is converted to an integral destination channel by rounding to nearest "
+             "(cast_pixel -> cast_channel_fn, helper calls followed); a bare conversion is refuted with a constant image: value v, fraction f such that v*(1-f) + v*f < v in double")
+    by_id = {f.get("id"): f for f in fns}
+    ops = [f for f in fns if f["name"] == "boost::gil::cast_channel_fn::operator()"]
+    seen = set()
+    for f in ops:
+        st, dt = f["params"][0]["type"], f["params"][1]["type"]
+        fp = re.search(r"\b(double|float|long double)\b", st) is not None
+        integral = re.search(r"\b(unsigned char|signed char|char|unsigned short|short|unsigned int|int|unsigned long|long)\b", dt) is not None and "float" not in dt
+        if not (fp and integral) or (st, dt) in seen:
+            continue
+        seen.add((st, dt))
+        rep.count("obligations:B4")
+        g = R.canonize(f)
+        key = "B4:cast_channel_fn(%s -> %s)" % (st.replace("const ", "").replace(" &", ""), dt.replace(" &", ""))
+        asg = [(k, x) for k, x, _ in R.effects(g["body"]) if k.startswith("($1 = ")]
+        if len(asg) != 1:
+            rep.incon("B4-narrowing", key, {"unrecognised": "assignments to the destination: %s" % [k for k, _ in asg]})
+            continue
+        rhs = R.strip(asg[0][1].get("r") or asg[0][1]["args"][1])
+        # follow one or two helper calls (tag dispatch): substitute the argument that carries the source value
+        expr = None
+        for _ in range(3):
+            n = R.strip(rhs)
+            while isinstance(n, dict) and n.get("k") in ("Construct", "FunctionalCast", "Temporary") and len(n.get("args", [])) == 1:
+                n = R.strip(n["args"][0])
+            if isinstance(n, dict) and n.get("k") == "Call" and n["callee"].get("id") in by_id and n["callee"]["name"].startswith("boost::gil::cast_channel_fn::"):
+                h = R.canonize(by_id[n["callee"]["id"]])
+                rets = [x for x, _ in R.find(h["body"], lambda x: x.get("k") == "Return")]
+                srcs = [i for i, a in enumerate(n["args"]) if R.key(a) == "$0"]
+                if len(rets) != 1 or len(srcs) != 1:
+                    break
+                expr = R.key(rets[0]["e"]).replace("$%d" % srcs[0], "SRC")
+                break
+            expr = R.key(n).replace("$0", "SRC")
+            break
+        ROUND = (r"\(\(SRC < 0(\.0)?\) \? \(SRC - 0\.5\) : \(SRC \+ 0\.5\)\)", r"\(SRC \+ 0\.5\)", r"l?l?round\(SRC\)", r"(nearbyint|rint)\(SRC\)", r"floor\(\(SRC \+ 0\.5\)\)")
+        if expr is not None and any(re.fullmatch(p_, expr) for p_ in ROUND):
+            rep.ok("B4-narrowing", key, expr)
+        elif expr == "SRC":
+            # witness from the weights B1 establishes: two taps with weights (1-f) and f on a constant image
+            wit = None
+            for v in (255.0, 65535.0, 1.0, 100.0):
+                for den in range(2, 40):
+                    for num in range(1, den):
+                        fr = num / den
+                        acc = 0.0
+                        acc += v * (1 - fr)
+                        acc += v * fr
+                        if acc < v:
+                            wit = {"constant value": v, "fraction": "%d/%d" % (num, den), "accumulated": repr(acc), "stored": int(acc)}
+                            break
+                    if wit:
+                        break
+                if wit:
+                    break
+            rep.violation("B4-narrowing", key, R.fn_where(f), {"conversion": "dst = value_type(accumulator): truncation", "witness": wit,
+                          "consequence": "the result is below every contributing pixel: not a convex combination; resize_view of a constant image changes it"})
+        else:
+            rep.incon("B4-narrowing", key, {"unrecognised": expr})
+    rep.floor("obligations:B4", 2)
+
+
 def bilinear(rep, fns):
     rep.rule("B1 bilinear: per leaf, weights are products of factors from {1, f, 1-f} and sum to 1")
     rep.rule("B2 bilinear: every read relative to floor(p) (after locator moves) is inside [0,w)x[0,h) under the dominating conditions")
